@@ -127,9 +127,10 @@ def run(c, prog):
         lhs = core.strip(asg["l"])
         if "zip" in chain and len(lids) == 2:
             # for (chunk, out) in read.zip(output): the decoded bytes are the first binding, the target the second
-            if lhs.get("lid") != lids[1]:
+            # (either order: `read.zip(output)` or `output.iter_mut().zip(read)` — the target is the binding assigned through)
+            if lhs.get("lid") not in lids:
                 raise core.AnchorMissing(f"{rf.path}: assignment target is not the output element")
-            dec_in = lids[0]
+            dec_in = [l_ for l_ in lids if l_ != lhs.get("lid")][0]
         elif "enumerate" in chain and len(lids) == 2 and x0.get("lid") == out_plid:
             # for (index, out) in output.iter_mut().enumerate(): the decoded bytes are `<buffer>[index]`
             if lhs.get("lid") != lids[1]:
